@@ -1,6 +1,7 @@
 import Pocket.Lemmas.ParseWF
 import Pocket.Lemmas.Digits
 import Pocket.Lemmas.EventOrder
+import Pocket.Lemmas.EventUnknown
 /-
 C01 — event JSON parsing is faithful to an independent JSON parser.
 
@@ -14,9 +15,15 @@ ANY of the 5040 orders, with ANY whitespace after `{`, before each key, around e
 after each value, preceded by any whitespace and followed by anything, are accepted with exactly
 the values of the event, into any sufficient buffer (`any_order_any_whitespace`) — including the
 orders in which `content` precedes `tags` (skipped first, read when the tags are in place).
-Completeness for the rest of JSON (other escapes such as `\/` or `\u0041`, unknown members,
-duplicate members) is established by the correspondence check against Python's `json` over the
-concrete-syntax-tree generator and is not claimed as a theorem.
+UNKNOWN MEMBERS (`any_order_any_whitespace_unknown_members`): the same with any number of additional
+members interleaved anywhere, each `"key" : value` with ANY JSON string as key other than the seven
+names and ANY JSON value nested at most 64 deep (an inductive grammar `JT`: strings with any escapes,
+numbers, `true`/`false`/`null`, arrays and objects with any whitespace) — skipped exactly, leaving the
+seven values untouched.
+Completeness for the rest of JSON (other spellings of the seven VALUES: escapes such as `\/` or
+`\u0041` inside content and tag strings, upper-case hex; duplicate members) is established by the
+correspondence check against Python's `json` over the concrete-syntax-tree generator and is not
+claimed as a theorem.
 -/
 namespace Pocket.C01
 open Pocket
@@ -79,6 +86,77 @@ theorem any_order_any_whitespace (e : EventRec) (hs : EventSized e)
   refine ⟨tj, ec, htj, hec, parseEvent_any_order e tj ec buf hc ms hws hnd hall lead hlead R, ?_⟩
   rw [List.take_left' rfl]
   exact eventDecode_encode e hs
+
+/-- **… and any additional unknown members**: the seven members in any order interleaved with any
+number of unknown members (any other JSON string as key, any JSON value nested at most 64 deep as
+value), any whitespace at every token boundary: accepted with exactly the bytes `from_parts` writes -/
+theorem any_order_any_whitespace_unknown_members (e : EventRec) (hs : EventSized e)
+    (hbid : ∀ b ∈ e.id, b < 256) (hbpk : ∀ b ∈ e.pubkey, b < 256) (hbsig : ∀ b ∈ e.sig, b < 256)
+    (hut : TagsUtf8 e.tags) (huc : IsUtf8 e.content) (buf : Bytes)
+    (hbuf : (encodeEvent e).length ≤ buf.length)
+    (ms : List ESpec) (hws : ∀ x ∈ ms, x.WsOk) (hnd : (ms.filterMap ESpec.mem?).Nodup)
+    (hall : ∀ m : EMem, m ∈ ms.filterMap ESpec.mem?) (lead : Bytes) (hlead : AllWs lead) (R : Bytes) :
+    ∃ tj ec, tagsJson e.tags = .ok tj ∧ jsonEscape e.content = .ok ec ∧
+      parseEvent (lead ++ 123 :: evTextU e tj ec ms R) buf =
+        .ok ((lead ++ 123 :: evTextU e tj ec ms R).length - R.length, (encodeEvent e).length,
+          encodeEvent e ++ buf.drop (encodeEvent e).length) ∧
+      eventDecode ((encodeEvent e ++ buf.drop (encodeEvent e).length).take (encodeEvent e).length) = .ok e := by
+  obtain ⟨tj, htj⟩ := tagsJson_ok e.tags hut
+  obtain ⟨ec, hec⟩ := IsUtf8_escape e.content huc
+  have hlen : (encodeEvent e).length = eventSize (tagsSize e.tags) e.content.length := by
+    unfold encodeEvent
+    rw [encodeEventWith_length _ _ _ _ _ _ _ hs.id hs.pk hs.sig, encodeTags_length]
+  have hc : ECtx e tj ec buf.length :=
+    ⟨hs, hbid, hbpk, hbsig, hut, huc, htj, hec, by rw [hlen] at hbuf; unfold eventSize at hbuf; exact hbuf⟩
+  refine ⟨tj, ec, htj, hec, parseEvent_any_order_unknown e tj ec buf hc ms hws hnd hall lead hlead R, ?_⟩
+  rw [List.take_left' rfl]
+  exact eventDecode_encode e hs
+
+/-- the grammar of skipped values is inhabited by nested, mixed values: `{"a":[1,true],"b":"x\"y"}` -/
+example : JT .val 2 (123 :: ([] ++ 34 :: ([97] ++ 34 :: ([] ++ 58 :: ([] ++
+    ((91 :: ([] ++ ([49] ++ ([44] ++ ([116, 114, 117, 101] ++ ([] ++ [93])))))) ++
+     ([44] ++ 34 :: ([98] ++ 34 :: ([] ++ 58 :: ([] ++ ((34 :: ([120, 92, 34, 121] ++ [34])) ++ ([] ++ [125])))))))))))) := by
+  refine .obj _ (.mCons [] [97] [] [] _ _ (by intro b hb; cases hb) (.raw 97 [] (by decide) (by decide) .nil)
+    (by intro b hb; cases hb) (by intro b hb; cases hb) ?_ ?_ ?_)
+  · refine .arr _ (.eCons [] [49] _ (by intro b hb; cases hb) (.num [49] ⟨49, [], rfl, Or.inr (by decide), by simp⟩) ?_ ?_)
+    · refine .eCons [44] [116, 114, 117, 101] _ (by intro b hb; simp at hb; exact Or.inr hb) .tru
+        (.eEnd [] (by intro b hb; cases hb)) ?_
+      intro b r h; simp at h; obtain ⟨rfl, _⟩ := h; decide
+    · intro b r h; simp at h; obtain ⟨rfl, _⟩ := h; decide
+  · refine .mCons [44] [98] [] [] _ _ (by intro b hb; simp at hb; exact Or.inr hb) (.raw 98 [] (by decide) (by decide) .nil)
+      (by intro b hb; cases hb) (by intro b hb; cases hb)
+      (.str [120, 92, 34, 121] (.raw 120 _ (by decide) (by decide) (.esc 34 _ (.raw 121 _ (by decide) (by decide) .nil))))
+      (.mEnd [] (by intro b hb; cases hb)) ?_
+    intro b r h; simp at h; obtain ⟨rfl, _⟩ := h; decide
+  · intro b r h; simp at h; obtain ⟨rfl, _⟩ := h; decide
+
+/-- … and the member-list hypotheses by a text with two unknown members among the seven -/
+example : ∃ ms : List ESpec, (∀ x ∈ ms, x.WsOk) ∧ (ms.filterMap ESpec.mem?).Nodup ∧
+    (∀ m : EMem, m ∈ ms.filterMap ESpec.mem?) ∧ ms.length = 9 := by
+  refine ⟨[.unknown [32] [120] [] [32] [110, 117, 108, 108] [], .known ⟨[32], [9], [10], [13], .sig⟩,
+    .known ⟨[], [32, 32], [], [10], .content⟩, .known ⟨[10], [], [], [], .kind⟩,
+    .unknown [] [105, 100, 115] [] [] [45, 49, 46, 53, 101, 43, 51] [10],
+    .known ⟨[], [], [32], [], .tags⟩, .known ⟨[], [], [], [], .id⟩, .known ⟨[9], [], [], [32], .createdAt⟩,
+    .known ⟨[], [], [], [10, 10], .pubkey⟩], ?_, by decide, ?_, rfl⟩
+  · intro x hx
+    simp only [List.mem_cons, List.not_mem_nil, or_false] at hx
+    have wsok : ∀ w : Bytes, (∀ b ∈ w, b = 32 ∨ b = 9 ∨ b = 10 ∨ b = 13) → AllWs w := by
+      intro w h b hb
+      rcases h b hb with rfl | rfl | rfl | rfl <;> decide
+    rcases hx with rfl | rfl | rfl | rfl | rfl | rfl | rfl | rfl | rfl
+    · refine ⟨wsok _ (by simp), wsok _ (by simp), wsok _ (by simp), wsok _ (by simp),
+        .raw 120 [] (by decide) (by decide) .nil, by decide, 0, by decide, .nul⟩
+    · exact ⟨wsok _ (by simp), wsok _ (by simp), wsok _ (by simp), wsok _ (by simp)⟩
+    · exact ⟨wsok _ (by simp), wsok _ (by simp), wsok _ (by simp), wsok _ (by simp)⟩
+    · exact ⟨wsok _ (by simp), wsok _ (by simp), wsok _ (by simp), wsok _ (by simp)⟩
+    · refine ⟨wsok _ (by simp), wsok _ (by simp), wsok _ (by simp), wsok _ (by simp),
+        .raw 105 _ (by decide) (by decide) (.raw 100 _ (by decide) (by decide) (.raw 115 _ (by decide) (by decide) .nil)),
+        by decide, 0, by decide, .num _ ⟨45, [49, 46, 53, 101, 43, 51], rfl, Or.inl rfl, by decide⟩⟩
+    · exact ⟨wsok _ (by simp), wsok _ (by simp), wsok _ (by simp), wsok _ (by simp)⟩
+    · exact ⟨wsok _ (by simp), wsok _ (by simp), wsok _ (by simp), wsok _ (by simp)⟩
+    · exact ⟨wsok _ (by simp), wsok _ (by simp), wsok _ (by simp), wsok _ (by simp)⟩
+    · exact ⟨wsok _ (by simp), wsok _ (by simp), wsok _ (by simp), wsok _ (by simp)⟩
+  · intro m; cases m <;> decide
 
 /-- the canonical text itself (`as_json`) is accepted with the event's values -/
 theorem canonical_text_faithful (e : EventRec) (hs : EventSized e)
